@@ -245,8 +245,32 @@ def monitor(case: dict, env: Env, result, exc) -> Optional[str]:
     return None
 
 
+def registry_pairs() -> None:
+    """Every registered board is a valid pair of its own (the artefacts must name exactly that board); every
+    re-spelling of a board id that is not itself registered (case variants, '-' <-> '_') is an invalid pair."""
+    from Reduino.toolchain import pio
+
+    for board, platform in sorted(pio.BOARD_TO_PLATFORM.items()):
+        PAIRS.setdefault(f"valid:reg:{board}", (platform, board))
+        for variant in (board.upper(), board.lower(), board.swapcase(), board.capitalize(), board.replace("-", "_"), board.replace("_", "-")):
+            if variant != board and variant not in pio.BOARD_TO_PLATFORM:
+                PAIRS.setdefault(f"bad:respelled:{variant}", (platform, variant))
+
+
 def cases(tier: str):
     ports = ["COM7", "/dev/ttyACM0"]
+    base_pairs = list(PAIRS)
+    registry_pairs()
+    for pair in PAIRS:
+        if pair in base_pairs:
+            continue
+        for upload in ((True, False) if tier == "thorough" or pair.startswith("bad") else (False,)):
+            yield {"pair": pair, "upload": upload, "pio": True, "script": "servo", "faults": [], "port": "COM7"}
+    for case in _grid_cases(tier, base_pairs, ports):
+        yield case
+
+
+def _grid_cases(tier: str, PAIRS, ports):
     for pair, upload, pio, script in itertools.product(PAIRS, (True, False), (True, False), SCRIPTS):
         fault_sets: List[Tuple[str, ...]] = [(f,) if f != "none" else () for f in FAULTS]
         if tier == "thorough":
@@ -287,7 +311,8 @@ def main(tier: str, seed: int, only=None) -> int:
     report.distinct = set(range(len(kinds)))
     report.add_sample({"pair": "valid", "upload": True, "pio": True, "script": "servo", "faults": ["run"], "expect": "CalledProcessError propagates, no upload"})
     report.add_sample({"pair": "valid", "upload": False, "pio": False, "script": "plain", "faults": [], "expect": "returns firmware, no process started"})
-    report.bounds = {"grid": "5 platform/board pairs x upload x pio present/absent x 6 scripts x fault position (9 single; thorough: + ordered pairs)"}
+    report.bounds = {"grid": "5 platform/board pairs x upload x pio present/absent x 6 scripts x fault position (9 single; thorough: + ordered pairs)",
+                     "registry": "every registered board as a valid pair (artefacts name exactly that board) + every case / hyphen re-spelling that is not registered as an invalid pair"}
     return report.finish(
         rule="full product of the configuration grid with one injected fault per run (thorough: ordered pairs); monitors: validation first, PlatformIO only on request, artefacts, process order, no effect after a failure, failures propagate; distinct = distinct (configuration, fault set) combinations",
         assumptions=["subprocess.run, tempfile.mkdtemp and pathlib.Path.{read_text,write_text,mkdir} are the seams through which target() touches the outside world"],
@@ -298,6 +323,7 @@ def replay(path: str) -> int:
     data = json.loads(open(path).read())
     base = ROOT / "build"
     base.mkdir(exist_ok=True)
+    registry_pairs()
     e1 = run_case(data["case"], base)
     e2 = run_case(data["case"], base)
     if e1 != e2:
